@@ -48,3 +48,29 @@ package dawg
 //@     invariant -1 <= rangeindex && rangeindex < width - 1 || (width == 1 && rangeindex == -1)
 //@     invariant 1 <= width && width <= 9 && width == n + 1 && x == be(buf, 0, rangeindex+1) && 0 <= x && x < pow2(8*(rangeindex+1))
 //@     decreases width - rangeindex
+
+// ---- builder (C12): an out-of-order or duplicate word is rejected with an error
+// and NOTHING is modified on that path (the later build cannot be affected).
+// The helper contracts below are trivial (no claim) and only let the accepting
+// path be executed symbolically; the automaton's language, ranks and minimality
+// are covered by the bounded stand-in.
+//@ func (*Builder).Initialise
+//@   modifies anything
+//@   opt assumed
+//@ func (*Dawg).commonPrefix
+//@   modifies anything
+//@   ensures dawg != nil
+//@   opt assumed
+//@ func replaceOrRegister
+//@   modifies anything
+//@   opt assumed
+//@ func (*Dawg).addSuffix
+//@   modifies anything
+//@   opt assumed
+
+//@ func (*Builder).Add
+//@   modifies anything
+//@   opt splitfirst
+//@   split db.d != nil | db.d == nil
+//@   ensures old(db.d) != nil && old(db.done) ==> result != nil && unmodified()
+//@   ensures old(db.d) != nil && old(db.lastWord) != nil && !lexLT(old(db.lastWord), old(b)) ==> result != nil && unmodified()
